@@ -2,7 +2,7 @@
 From Coq Require Import List Arith NArith.
 Import ListNotations.
 From Exmex.Model Require Import Base Lexer.
-From Exmex.Proofs Require Import LexerFacts LongestMatch.
+From Exmex.Proofs Require Import LexerFacts LongestMatch LexSpaced.
 Open Scope nat_scope.
 
 (* For EVERY operator table (so also tables whose names are prefixes of each other), data type and literal matcher. *)
@@ -71,8 +71,40 @@ Example C13_sin4_PI5_log2x :
   = Ok [TVar [115;105;110;52]%N; TOp 0; TVar [80;73;53]%N; TOp 0; TVar [108;111;103;50;120]%N; TOp 0; TOp 3; TVar [120]%N].
 Proof. vm_compute. reflexivity. Qed.
 
+(* Composition into whole texts, for the canonical rendering of a token list (every token followed by one space, numbers
+   by their Debug text, variables in braces, operators by name): when every token is readable in front of a space, the
+   tokenizer returns exactly the token list; an operator is found by its name in front of a space in every table with
+   distinct names that contain no space. *)
+Theorem C13_canonical_text_tokenizes :
+  forall (D : Type) (C : carrier D) (tb : optable) (is_literal : str -> option nat) (ts : list (token D)),
+  Forall (lexable C tb is_literal) ts -> tokenize C tb is_literal (stext C tb ts) = Ok ts.
+Proof. exact @tokenize_spaced. Qed.
+Theorem C13_operator_found_by_its_name :
+  forall (tb : optable) (k : nat) (rest : str),
+  (forall i j, i < length tb -> j < length tb -> repr (op_of tb i) = repr (op_of tb j) -> i = j) ->
+  (forall i, i < length tb -> forallb (fun c => negb (N.eqb c SPACE)) (repr (op_of tb i)) = true) ->
+  k < length tb -> find_ops tb (repr (op_of tb k) ++ SPACE :: rest) = Some k.
+Proof. exact find_ops_spaced. Qed.
+
 Print Assumptions C13_extended_name_is_variable.
 Print Assumptions C13_sign_unary_iff.
 Print Assumptions C13_numeric_literal.
 Print Assumptions C13_brace_is_one_var.
 Print Assumptions C13_longest_operator_name_wins.
+(* non-vacuity: the tokens of  ( {x} + 12 ) * sin {y}  over the free term algebra, with the number pattern of the model as
+   literal matcher, are readable in front of a space, and the text is tokenized back *)
+Definition ex13_tb : optable :=
+  [ {| repr := [43]%N; obin := Some {| prio := 0; comm := true |}; ounary := true; oconst := false |};
+    {| repr := [42]%N; obin := Some {| prio := 2; comm := true |}; ounary := false; oconst := false |};
+    {| repr := [115;105;110]%N; obin := None; ounary := true; oconst := false |} ].
+Definition ex13_ts : list (token term) := [TOpen; TVar [120%N]; TOp 0; TNum (Lit [49;50]%N); TClose; TOp 1; TOp 2; TVar [121%N]].
+Example C13_example_lexable : Forall (lexable term_carrier ex13_tb is_numeric_text) ex13_ts /\
+  tokenize term_carrier ex13_tb is_numeric_text (stext term_carrier ex13_tb ex13_ts) = Ok ex13_ts.
+Proof.
+  assert (H : Forall (lexable term_carrier ex13_tb is_numeric_text) ex13_ts).
+  { repeat constructor; cbn; try reflexivity; try (eexists _, _; split; reflexivity); intros rest; reflexivity. }
+  split; [exact H|exact (tokenize_spaced term_carrier ex13_tb is_numeric_text ex13_ts H)].
+Qed.
+
+Print Assumptions C13_canonical_text_tokenizes.
+Print Assumptions C13_operator_found_by_its_name.
